@@ -36,6 +36,7 @@ def required_buckets(tier):
     req = [f'C16/sym/{s}/ok' for s in SYMS if s not in ('usesA2', 'usesL_dup', 'csSolvX', 'csfX', 'tXA', 'tAX', 'rmX', 'dilX', 'fillX', 'stall')]
     req += [f'C16/sym/{s}/refused' for s in SYMS if s not in ()]
     req += [f'C16/after_bake/{s}' for s in SYMS]
+    req += ['C16/naming/plain', 'C16/naming/like_substances']
     return req
 
 
@@ -151,9 +152,13 @@ class Model:
         self.open = None
 
 
-def fresh(pp, water, salt):
+PLAIN = {'B': 'B', 'P': 'P'}
+LIKE_SUBSTANCES = {'B': 'H2O', 'P': 'NaCl'}     # objects named exactly like the substances the steps mention as operands
+
+
+def fresh(pp, water, salt, names=PLAIN):
     C, P = pp.Container, pp.Plate
-    return {'A': C('A', initial_contents=[(water, '100 mL'), (salt, '5 g')]), 'B': C('B'), 'P': P('P', '1 mL', rows=1, columns=2),
+    return {'A': C('A', initial_contents=[(water, '100 mL'), (salt, '5 g')]), 'B': C(names['B']), 'P': P(names['P'], '1 mL', rows=1, columns=2),
             'X': C('X', initial_contents=[(water, '10 mL')]),
             'D1': C('D', initial_contents=[(water, '1 mL')]), 'D2': C('D', initial_contents=[(water, '2 mL')])}
 
@@ -250,9 +255,10 @@ def battery(r, res, o, water, salt):
     return repr(out)
 
 
-def run_sequence(pp, water, salt, seq, M, stats, states, transitions, check_battery):
+def run_sequence(pp, water, salt, seq, M, stats, states, transitions, check_battery, names=PLAIN):
     r = pp.Recipe()
-    o = fresh(pp, water, salt)
+    o = fresh(pp, water, salt, names)
+    stats['naming/' + ('plain' if names is PLAIN else 'like_substances')] += 1
     m = Model()
     res = None
     bat = None
@@ -303,7 +309,7 @@ def run_sequence(pp, water, salt, seq, M, stats, states, transitions, check_batt
             m.baked()
             res = ret
             stats['LIFE.bake_ok'] += 1
-            if set(res.keys()) != m.decl:
+            if set(res.keys()) != {names.get(k_, k_) for k_ in m.decl}:
                 M.violate(['C16'], 'LIFE', 'C16:bake_result_names_ne_declared', {'sequence': list(seq[:i + 1]), 'got': sorted(res.keys()),
                                                                                  'declared': sorted(m.decl)})
                 return
@@ -340,11 +346,12 @@ def enumerate_(rng, case, idx):
             seq = head + tail
             nseq += 1
             # the battery is evaluated on a sample of the sequences that reach a bake (it is the expensive part)
-            run_sequence(pp, water, salt, seq, M, stats, states, transitions, check_battery=(nseq % 7 == 0))
+            run_sequence(pp, water, salt, seq, M, stats, states, transitions, check_battery=(nseq % 7 == 0),
+                         names=LIKE_SUBSTANCES if nseq % 2 else PLAIN)
             if len(M.violations) > 200:
                 break
     for k, v in stats.items():
-        if k.startswith('sym/') or k.startswith('after_bake/'):
+        if k.startswith('sym/') or k.startswith('after_bake/') or k.startswith('naming/'):
             M.bucket('C16/' + k, v)
         else:
             M.count(k, v)
@@ -367,10 +374,11 @@ def random_(rng, case, idx):
     w = [3 if s in ('usesA', 'usesB', 'usesP', 'tAB', 'tAP', 'fillB', 'dilA', 'bake', 'st1', 'en1') else 1 for s in SYMS]
     for i in range(n):
         seq = tuple(rng.choices(SYMS, w, k=rng.randint(6, 14)))
-        run_sequence(pp, water, salt, seq, M, stats, states, transitions, check_battery=True)
+        run_sequence(pp, water, salt, seq, M, stats, states, transitions, check_battery=True,
+                     names=LIKE_SUBSTANCES if i % 2 else PLAIN)
         M.note_nontrivial('C16', seq)
     for k, v in stats.items():
-        if k.startswith('sym/') or k.startswith('after_bake/'):
+        if k.startswith('sym/') or k.startswith('after_bake/') or k.startswith('naming/'):
             M.bucket('C16/' + k, v)
         else:
             M.count(k, v)
